@@ -118,16 +118,16 @@ fn str_value(bit: usize, var: u8) -> String {
         1 => match bit % 3 {
             0 => String::new(),
             1 => format!("日本{}", bit),
-            _ => format!("ｿ{}", bit),
+            _ => format!("{}ﾂｱ", bit),
         },
         2 => String::new(),
         3 => format!("名前{}", bit),
         4 => "dup".to_string(),
         _ => {
-            // collides with the spec names "n" / "名前" on some fields, unique elsewhere
+            // collides with the spec names "n" / "名前ﾏﾙｽ" on some fields, unique elsewhere
             match bit % 4 {
                 0 => "n".to_string(),
-                1 => "名前".to_string(),
+                1 => "名前ﾏﾙｽ".to_string(),
                 _ => format!("v{}", bit),
             }
         }
@@ -184,7 +184,7 @@ fn zero_value(bit: usize) -> Typed {
     }
 }
 
-const NAMES: [Option<&str>; 4] = [Some("n"), None, Some(""), Some("名前")];
+const NAMES: [Option<&str>; 4] = [Some("n"), None, Some(""), Some("名前ﾏﾙｽ")];
 const HDRS: [u32; 4] = [0, 1, 0x0102_0304, 0xFFFF_FFFF];
 
 // ------------------------------------------------------------------------------------
@@ -661,7 +661,7 @@ fn explore(ctx: &Ctx) -> Outcome {
     }
     let fam_counts: serde_json::Map<String, Value> = total.classes.iter().filter(|(k, _)| k.starts_with("family:")).map(|(k, v)| (k["family:".len()..].to_string(), json!(v))).collect();
     let mut o = total.into_outcome(
-        "every AssetBinary of two families is serialized, re-read (BinArchive::from_bytes + AssetBinary::from_archive), compared field-wise, its image walked record by record, and re-serialized: (1) presence sweep — EVERY pattern over the 51 presence bits with ≤2 bits set, EVERY pattern with ≤2 bits clear (≤3 at the thorough tier) and, for each of the 7 flag bytes, ALL combinations of its field bits against an all-absent and an all-present background, each × name {Some(\"n\"), None, Some(\"\"), Some(\"名前\")} × 6 value variants (unique ASCII strings and byte-distinct words / empty, multi-byte and half-width strings with quiet and signalling NaN payloads / all-zero values and empty strings / unique non-ASCII strings, subnormal and infinities / one repeated string / strings equal to spec names) × 4 embeddings (alone, first, last, in the middle followed by the all-absent unnamed spec) × header word {0,1,0x01020304,0xFFFFFFFF}; odd variants put junk into the value of every ABSENT typed field; (2) ALL sequences of 0..=3 specs from six shapes (all-absent unnamed, all-absent named, short with strings, extended typed-only unnamed, all-present, extended by one string with empty name) × 4 header words × 6 variant shifts. non-trivial = some spec has a field present",
+        "every AssetBinary of two families is serialized, re-read (BinArchive::from_bytes + AssetBinary::from_archive), compared field-wise, its image walked record by record, and re-serialized: (1) presence sweep — EVERY pattern over the 51 presence bits with ≤2 bits set, EVERY pattern with ≤2 bits clear (≤3 at the thorough tier) and, for each of the 7 flag bytes, ALL combinations of its field bits against an all-absent and an all-present background, each × name {Some(\"n\"), None, Some(\"\"), Some(\"名前ﾏﾙｽ\")} × 6 value variants (unique ASCII strings and byte-distinct words / empty, multi-byte and half-width strings with quiet and signalling NaN payloads / all-zero values and empty strings / unique non-ASCII strings, subnormal and infinities / one repeated string / strings equal to spec names) × 4 embeddings (alone, first, last, in the middle followed by the all-absent unnamed spec) × header word {0,1,0x01020304,0xFFFFFFFF}; odd variants put junk into the value of every ABSENT typed field; (2) ALL sequences of 0..=3 specs from six shapes (all-absent unnamed, all-absent named, short with strings, extended typed-only unnamed, all-present, extended by one string with empty name) × 4 header words × 6 variant shifts. non-trivial = some spec has a field present",
         true,
         vec![
             ("families", Value::Object(fam_counts)),
